@@ -53,6 +53,32 @@ def main():
             print("SELFTEST FAILED: canary", clause[0], "counter-model does not replay on the real function", r.get("violated"), r.get("native"))
             return 3
         print("canary", clause[0], "refuted and replayed natively")
+    # invariant-mode canaries: clauses that are false after the first iteration must not be discharged (loop-head havoc of self.<array> state)
+    inv_canaries = [
+        ("nucs/solvers/backtrack_solver.py::BacktrackSolver.solve", ("canary.nothing_delivered_before_exhaustion", "self.statistics[STATS_IDX_SOLVER_SOLUTION_NB] == old(self.statistics)[STATS_IDX_SOLVER_SOLUTION_NB]")),
+        ("nucs/solvers/multiprocessing_solver.py::MultiprocessingSolver.solve", ("canary.first_message_only", "implies(N >= 1, forall(k, 0, 13, self.statistics[0, k] == old(self.statistics)[0, k]))")),
+    ]
+    os.environ["NUCSVC_RLIMIT"] = "3000000"  # a discharge would take a few thousand units: a small budget keeps the refusals cheap
+    for q, clause in inv_canaries:
+        if q not in reg.contracts:
+            continue
+        con = copy.copy(reg.contracts[q])
+        con.ensures = list(con.ensures) + [clause]
+        reg2 = copy.copy(reg)
+        reg2.contracts = dict(reg.contracts)
+        reg2.contracts[q] = con
+        fi = repo.functions[q]
+        v = Verifier(repo, Prover(timeout_ms=5000, rlimit=3000000), reg2, fi)
+        try:
+            v.verify(None)
+        except Exception as e:  # the canary clause itself may be ill-typed for this contract: that is a self-test failure too
+            print("SELFTEST FAILED: canary", clause[0], "could not be evaluated:", e)
+            return 3
+        obs = [o for o in v.obligations if o.label == clause[0]]
+        if not obs or any(o.status == "proved" for o in obs):
+            print("SELFTEST FAILED: canary", clause[0], "was discharged (or never generated): loop-head state is not arbitrary", [(o.oid, o.status) for o in obs])
+            return 3
+        print("canary", clause[0], "not discharged:", [o.status for o in obs])
     print("selftest ok")
     return 0
 
